@@ -158,6 +158,16 @@ def wtext(t):
     return t[1] if t[0] == "atom" else "%s %s %s" % (wtext(t[1]), t[0].upper(), wtext(t[2]))
 
 
+FILTER_INFERRED = [None, "m1", "metrics", "ghost"]
+
+
+def qmap(t, table):
+    """the scripted _qualify_unaliased_columns: the same tree with every atom marked by the table it was qualified with"""
+    if t[0] == "atom":
+        return ("atom", "%s:%s" % (table, t[1]))
+    return (t[0], qmap(t[1], table), qmap(t[2], table))
+
+
 def where_node(t):
     if t[0] == "atom":
         return Obj("atom", {"__class__": None}, {"sql": lambda dialect=None, _t=t: wtext(_t)})
@@ -191,25 +201,40 @@ def filter_table(repo, real=False):
                 w = type("W", (), {})()
                 w.this = mk(t) if t is not None else None
                 self.args = {"where": w} if t is not None else {}
+
+        class G:
+            models = {n: object() for n in MODELS}
         saved = Q.exp
         Q.exp = FakeExp
         try:
-            for t in where_trees():
-                rw = Q.QueryRewriter.__new__(Q.QueryRewriter)
-                rw.dialect = "duckdb"
-                rows.append((t, list(rw._extract_filters(Sel(t)))))
+            for inf in FILTER_INFERRED:
+                for t in where_trees():
+                    rw = Q.QueryRewriter.__new__(Q.QueryRewriter)
+                    rw.dialect, rw.inferred_table, rw.graph = "duckdb", inf, G
+                    rw._qualify_unaliased_columns = lambda where, table: mk(qmap(where.t, table))
+                    rows.append((inf, t, list(rw._extract_filters(Sel(t)))))
         finally:
             Q.exp = saved
         return rows
     fn, funcs = find_function(repo + "/sidemantic/sql/query_rewriter.py", "_extract_filters", "QueryRewriter")
     exp = Obj("exp", {"And": CLS_AND, "Or": CLS_OR})
-    for t in where_trees():
-        it = Interp(funcs, {"exp": exp})
-        sel = Obj("select", {"args": ({"where": Obj("where", {"this": where_node(t)})} if t is not None else {})})
-        res = it.call_def(fn, [sel], self_obj=Obj("self", {"dialect": "duckdb"}))
-        if not (isinstance(res, list) and all(isinstance(x, str) for x in res)):
-            raise Unsupported("_extract_filters returns %r" % (res,))
-        rows.append((t, list(res)))
+    for inf in FILTER_INFERRED:
+        for t in where_trees():
+            it = Interp({k: v for k, v in funcs.items() if k != "_qualify_unaliased_columns"}, {"exp": exp})
+
+            def getattr_(obj, name, default=None):
+                return obj.attrs.get(name, default)
+            it.globals["getattr"] = getattr_
+            sel = Obj("select", {"args": ({"where": Obj("where", {"this": where_node(t)})} if t is not None else {})})
+            node_tree = {}
+
+            def qualify(where, table, _t=t):
+                return where_node(qmap(_t, table))
+            selfo = Obj("self", {"dialect": "duckdb", "inferred_table": inf, "graph": Obj("graph", {"models": {n: Obj("model:" + n) for n in MODELS}})}, {"_qualify_unaliased_columns": qualify})
+            res = it.call_def(fn, [sel], self_obj=selfo)
+            if not (isinstance(res, list) and all(isinstance(x, str) for x in res)):
+                raise Unsupported("_extract_filters returns %r" % (res,))
+            rows.append((inf, t, list(res)))
     return rows
 
 
@@ -253,9 +278,10 @@ def generate(repo):
             "Definition table_graph : rgraph := %s.\n\n"
             "(* per scripted scenario: the single FROM table (None = none), the SELECT list, what the method returns (None = it raises) *)\n"
             "Definition extract_rows : list (option string * list proj * option (list string * list string * list (string * string))) :=\n  [%s].\n\n"
-            "(* WHERE clause (None = no WHERE) -> the filters _extract_filters / _extract_compound_filters return *)\n"
-            "Definition filter_rows : list (option wexpr * list string) :=\n  [%s].\n" % (g, ";\n   ".join(items),
-                ";\n   ".join("(%s, [%s])" % ("None" if t is None else "Some (%s)" % wterm(t), "; ".join(q(x) for x in r)) for t, r in filter_table(repo))))
+            "(* the single FROM table (None = none), the WHERE clause (None = no WHERE) -> the filters _extract_filters / _extract_compound_filters return; an atom the method\n"
+            "   passed through _qualify_unaliased_columns(where, t) prints as t:<atom> *)\n"
+            "Definition filter_rows : list (option string * option wexpr * list string) :=\n  [%s].\n" % (g, ";\n   ".join(items),
+                ";\n   ".join("(%s, %s, [%s])" % (opt(inf), "None" if t is None else "Some (%s)" % wterm(t), "; ".join(q(x) for x in r)) for inf, t, r in filter_table(repo))))
 
 
 if __name__ == "__main__":
